@@ -113,8 +113,11 @@ def c01(res):
     c01_exact(res, [g for g in sample if not IS_TM[g["kind"]]] + tm[:: max(1, len(tm) // size(res, 90, 150))])
     res.rule = ("random games over all strata (typical, wide, corners, mismatch 4-9 c apart, identical, equal sizes) "
                 "x 5 models x configurations (beta 1e-3..1e3 rescaled, kappa, tau, limit_sigma, 6 gamma callbacks) "
-                "x outcomes as ranks/scores in 8 numeric encodings, plus every weak order of n<=%d teams; each game's "
-                "posterior compared with the Lean model (code-shaped closed form at Float) within the computed budget; "
+                "x outcomes as ranks/scores in 9 numeric encodings, plus every weak order of n<=%d teams; each game's "
+                "posterior compared with the Lean model (code-shaped closed form at Float) within the computed budget; a sample also "
+                "with the exact-leaf closed form on 192-bit floats (documented asymptote errors propagated) and with the model's trace of "
+                "the gamma-callback invocations (internal state); _sum_q / _ladder_pairs against their literal Lean models; every sixth "
+                "call interleaved with a nested rate() on the same model, every fifth with the outcome passed positionally; "
                 "distinct = distinct game JSON" % top)
 
 
@@ -404,8 +407,8 @@ def c03(res):
             allgames += c03_one(res, g, wo, rng)
     corr_games(res, allgames, "property", "C03 dense ranks / order of processing")
     core.trace_games(res, allgames[:: max(1, len(allgames) // size(res, 800, 1500))], "correspondence", "C03")
-    res.rule = ("for each game and weak order: ranks in 8 order-isomorphic encodings (int, float, mixed int/float, negative, "
-                "|v|>=2^53, gaps, bool, fractional), scores (negated), omitted vs [0..n-1]; all results must be bit-identical "
+    res.rule = ("for each game and weak order: ranks in 9 order-isomorphic encodings (int, float, mixed int/float, negative, "
+                "|v|>=2^53, gaps, bool, fractional, ints beyond the float range), scores (negated), omitted vs [0..n-1]; all results must be bit-identical "
                 "to the dense-int baseline on the implementation, and equal to the model (exact Python int/float comparison); "
                 "plus literal tie pairs such as [1, 1.0], [2**53+1, 2.0**53]")
 
@@ -861,6 +864,68 @@ def c06_league(res, rng, kind, ngames, games):
                 pool[pid] = p
 
 
+def c06_league_model(res, rng):
+    """short leagues (ratings fed back) on the implementation against the Lean league machine (`playLeague`): the
+    composition — load by player, rate, write back — is compared, not only single games; the kind may change from game
+    to game (one model object per kind, same parameters)"""
+    lines, finals = [], []
+    for _ in range(size(res, 60, 300)):
+        beta, kappa, tau = gen_config(rng, default_bias=0.6)
+        ls = rng.random() < 0.3
+        sc = beta / core.DEFAULTS["beta"]
+        npl = rng.randint(4, 9)
+        init = [(rng.gauss(25, 8) * sc, rng.uniform(1, 9) * sc) for _ in range(npl)]
+        models = {k: MODEL_CLS[k](beta=beta, kappa=kappa, tau=tau, limit_sigma=ls) for k in KINDS}
+        pool = [models["PL"].rating(m, s_) for (m, s_) in init]
+        toks = [core.f2h(beta), core.f2h(kappa), core.f2h(tau), "1" if ls else "0", "D", core.f2h(0.0), str(npl)]
+        for (m, s_) in init:
+            toks += [core.f2h(m), core.f2h(s_)]
+        ng = rng.randint(2, 8)
+        toks.append(str(ng))
+        ok = True
+        for _g in range(ng):
+            kind = rng.choice(KINDS)
+            nt = rng.randint(2, min(4, npl // 2))
+            ids = rng.sample(range(npl), rng.randint(nt, min(npl, 2 * nt)))
+            tid = [[] for _ in range(nt)]
+            for k, pid in enumerate(ids):
+                tid[k % nt].append(pid)
+            dense = random_weak_order(rng, nt)
+            mode = rng.choice(["R", "S", "N"])
+            tauopt = None if rng.random() < 0.6 else rng.choice([0.0, beta / 10])
+            lsopt = None if rng.random() < 0.7 else (rng.random() < 0.5)
+            toks += [kind, "-" if tauopt is None else core.f2h(tauopt), "-" if lsopt is None else ("1" if lsopt else "0"), mode,
+                     str(nt)] + [str(len(t)) for t in tid] + [str(p) for t in tid for p in t]
+            kw = {}
+            if mode != "N":
+                vals = encode_ranks(rng, dense, rng.choice(["int", "float", "frac"]))
+                toks += [core.num_token(v) for v in vals]
+                kw["ranks" if mode == "R" else "scores"] = vals
+            if tauopt is not None: kw["tau"] = tauopt
+            if lsopt is not None: kw["limit_sigma"] = lsopt
+            RC = core.RATING_CLS[kind]
+            teams = [[RC(pool[p].mu, pool[p].sigma) for p in t] for t in tid]      # each class rates its own rating objects
+            try:
+                out = models[kind].rate(teams, **kw)
+            except Exception as e:  # noqa: BLE001
+                res.fail("property", "C06: valid call raised %s in a league" % type(e).__name__, None); ok = False; break
+            for t, to in zip(tid, out):
+                for pid, p in zip(t, to):
+                    pool[pid] = p
+        if ok:
+            lines.append("LEAGUE " + " ".join(toks))
+            finals.append((beta, init, [(p.mu, p.sigma) for p in pool]))
+    outs = Driver().run(lines)
+    for (beta, init, fin), o in zip(finals, outs):
+        want = [tuple(core.h2f(x) for x in tok.split(":")) for tok in o.split(" ")[1:]]
+        res.traces += 1
+        res.count("league_machine_comparisons")
+        for pid, (a, b) in enumerate(zip(fin, want)):
+            if not (close(a[0], b[0], 2e-7, beta) and close(a[1], b[1], 2e-7, init[pid][1])):
+                res.fail("correspondence", "C06: after a league of fed-back games player %d holds %r on the implementation, %r on the Lean league machine" % (pid, a, b), None)
+                break
+
+
 def c06_item(res, item):
     g = G(item)
     res.case(g)
@@ -900,6 +965,7 @@ def c06(res):
     for k in range(size(res, 20, 60)):
         c06_league(res, rng, KINDS[k % 5], size(res, 120, 1200), games)
     corr_games(res, games, "correspondence", "C06 rate numbers")
+    c06_league_model(res, rng)
     res.rule = ("per game on the implementation: finite, sigma > 0, sigma <= sqrt(prior^2+tau^2) (1e-12 relative slack), with "
                 "limit_sigma sigma <= prior exactly; strata incl. teams 4-9 c apart, TM ties at draw margins t up to ~0.3, tau=0 "
                 "per call; leagues with ratings fed back and per-call tau/limit_sigma arbitrary per step: sigma_k^2 <= sigma_0^2 + "
